@@ -444,6 +444,9 @@ def gen_op(rng, m: Model, swarm, nalg, prev=(), step=0):
     ks = [k for k in OPKINDS if swarm["w"][k] > 0]
     k = rng.choices(ks, weights=[swarm["w"][x] for x in ks])[0]
     echo = swarm.get("echo")
+    forced = swarm.pop("_force_filter", None)
+    if forced is not None:
+        return forced
     if swarm.get("foreign") and not (echo and step < len(echo)) and step > 0 and rng.random() < 0.3:
         # another setup object alive in the same process is worked on in between (not judged itself): whatever one
         # setup keeps at class or module level must not reach the other
@@ -454,7 +457,11 @@ def gen_op(rng, m: Model, swarm, nalg, prev=(), step=0):
         elif do == "filter":
             op["rel"] = round(rng.uniform(0.1, 0.8), 4)
             op["order"] = rng.randint(1, 8)
-            op["same_args_as_last"] = rng.random() < 0.5
+            op["same_args_as_last"] = rng.random() < 0.3
+            if not op["same_args_as_last"] and rng.random() < 0.7:
+                # absolute cut-off valid for both setups; the setup under test filters with the very same arguments next
+                op["Wn"] = round(op["rel"] * 0.5 * min(m.fs, m.fs0 * 0.5 + 3.0) / 2.0, 6)
+                swarm["_force_filter"] = {"op": "filter", "Wn": op["Wn"], "order": op["order"]}
         return op
     if echo and step < len(echo):
         tok = echo[step]
@@ -626,6 +633,8 @@ def _foreign_op(store, world, op, ops_so_far):
                 # the very arguments the setup under test used last (another fs: another design)
                 o = last[-1]
                 f.filter_data(Wn=o["Wn"], **{k_: o[k_] for k_ in ("order", "btype") if k_ in o})
+            elif "Wn" in op:
+                f.filter_data(Wn=op["Wn"], order=op["order"])
             else:
                 f.filter_data(Wn=op["rel"] * float(f.fs) / 2.0, order=op["order"])
     except Exception:
